@@ -1809,6 +1809,12 @@ class Rectifier(_Component):
             )
         # mosfet mode
         v = abs(vi[0]) - 2 * self._params["rs"] * io
+        if not (v > 0.0):
+            raise ValueError(
+                "Unstable system: Rectifier component '{}' has zero output voltage".format(
+                    self._params["name"]
+                )
+            )
         return abs(v), STATE_DEFAULT
 
     def _solv_pwr_loss(self, vi, vo, ii, io, ta, phase, phase_conf=[], pstate={}):
